@@ -80,7 +80,8 @@ API = {
     "C02": [("Solver.mass", "tri-open", lambda m, A: [Solver(m).mass, Solver(m, lump=True).mass]), ("fem_tria_mass", "tri", lambda m, A: [Solver.fem_tria_mass(m), Solver.fem_tria_mass(m, True)]),
             ("Solver.mass (tet)", "tet", lambda m, A: [Solver(m).mass, Solver(m, lump=True).mass])],
     "C03": [("eigs eigenvalues", "tri", lambda m, A: _ev(Solver(m).eigs(4))), ("eigs eigenvalues (tet)", "tet", lambda m, A: _ev(Solver(m, lump=True).eigs(3)))],
-    "C04": [("compute_shapedna", "tri", lambda m, A: shapedna.compute_shapedna(m, k=3)["Eigenvalues"]),
+    "C04": [("compute_shapedna", "tri", lambda m, A: shapedna.compute_shapedna(m, k=3)),
+            ("compute_shapedna (tet)", "tet", lambda m, A: shapedna.compute_shapedna(m, k=2)),
             ("normalize_ev", "tri", lambda m, A: [shapedna.normalize_ev(m, A["ev"].copy(), meth) for meth in ("surface", "volume", "geometry")]),
             ("normalize_ev (tet)", "tet", lambda m, A: [shapedna.normalize_ev(m, A["ev"].copy(), meth) for meth in ("volume", "geometry")])],
     "C05": [("poisson", "tri-open", lambda m, A: Solver(m).poisson(A["f"], (A["didx"], A["ddat"]), (A["nidx"], A["ndat"]))),
@@ -101,6 +102,9 @@ API = {
     "C19": [("tria_mean_curvature_flow", "tri", lambda m, A: diffgeo.tria_mean_curvature_flow(m, max_iter=3).v)],
 }
 
+# C20 (objects stay consistent, nothing is modified behind the caller's back) concerns every function
+API["C20"] = [e for k in sorted(API) for e in API[k]]
+
 # one Solver object used for two problems in a row: the second result must be that of a fresh Solver
 SOLVER_SEQ = {
     "C03": [("poisson() then eigs", lambda s, A: s.poisson(A["f"] - A["f"].mean()), lambda s, A: _ev(s.eigs(4))),
@@ -110,6 +114,95 @@ SOLVER_SEQ = {
             ("poisson(D1) then poisson(D1) with other data", lambda s, A: s.poisson(A["f"], (A["didx"], A["ddat"])), lambda s, A: s.poisson(A["g"], (A["didx"], A["ddat2"]), (A["nidx"], A["ndat"]))),
             ("eigs then poisson", lambda s, A: s.eigs(3), lambda s, A: s.poisson(A["f"], (A["didx"], A["ddat"])))],
 }
+
+
+def _state(m):
+    """everything a function without a trailing underscore must leave alone: vertices, elements, the cached adjacency matrices"""
+    out = dict(v=np.array(m.v, copy=True), t=np.array(m.t, copy=True), vdtype=str(np.asarray(m.v).dtype), tdtype=str(np.asarray(m.t).dtype))
+    for nm in ("adj_sym", "adj_dir"):
+        a = getattr(m, nm, None)
+        if a is not None:
+            out[nm] = (a.shape, np.array(a.data, copy=True), np.array(a.indices, copy=True), np.array(a.indptr, copy=True))
+    return out
+
+
+def _state_diff(s0, m):
+    s1 = _state(m)
+    for k in s0:
+        a, b = s0[k], s1.get(k)
+        if isinstance(a, tuple):
+            if b is None or a[0] != b[0] or any(not np.array_equal(x, y) for x, y in zip(a[1:], b[1:])):
+                return k
+        elif isinstance(a, str):
+            if a != b:
+                return k
+        elif b is None or a.shape != b.shape or not np.array_equal(a, b, equal_nan=True):
+            return k
+    return None
+
+
+def _mixed(kind):
+    """the same mesh with inconsistent winding (functions that 'repair' the orientation of their argument show here)"""
+    m = make(kind)
+    t = np.array(m.t); t[::3] = t[::3][:, [0, 2, 1] + ([3] if t.shape[1] == 4 else [])]
+    with core.quiet():
+        return TetMesh(np.array(m.v), t) if kind == "tet" else TriaMesh(np.array(m.v), t)
+
+
+def purity(prop, stats=None):
+    """no function of the property modifies the mesh it is given (vertices, elements, cached adjacency), the arrays of its caller, or a
+    result it returned earlier"""
+    import copy
+    fails = []
+    for name, kind, fn in API.get(prop, []):
+        for variant in ("as-is", "mixed-orientation"):
+            try:
+                with core.quiet():
+                    m = make(kind) if variant == "as-is" else _mixed(kind)
+                    A = args(m)
+            except Exception:  # noqa: BLE001
+                continue
+            A0 = {k: copy.deepcopy(a) for k, a in A.items()}
+            s0 = _state(m)
+            first = None
+            try:
+                with core.quiet():
+                    first = fn(m, A)
+            except Exception:  # noqa: BLE001
+                pass               # rejecting the input is fine; changing it is not
+            if stats is not None:
+                stats.monitor("functions checked for leaving mesh state and caller arrays untouched")
+            d = _state_diff(s0, m)
+            if d:
+                fails.append(core.Failure("correspondence", "purity: " + name, "%s (%s mesh) changed `%s` of the mesh passed to it" % (name, variant, d),
+                                          dict(kind="reuse", prop=prop, name=name, what="purity")))
+                break
+            bad = [k for k in A0 if not _same_obj(A0[k], A[k])]
+            if bad:
+                fails.append(core.Failure("correspondence", "purity: " + name, "%s wrote into the caller's `%s`" % (name, bad[0]), dict(kind="reuse", prop=prop, name=name, what="purity")))
+                break
+            if first is not None and variant == "as-is":
+                # a result handed out earlier must not change when the function is used again on something else
+                snap = copy.deepcopy(first)
+                try:
+                    with core.quiet():
+                        other = make(kind)
+                        movers(kind)[-1 if kind == "tet" else 2][1](other)
+                        fn(other, args(other))
+                except Exception:  # noqa: BLE001
+                    continue
+                if _cmp(first, snap, 0.0):
+                    fails.append(core.Failure("correspondence", "purity: " + name, "a result returned by %s changed when the function was called again on another mesh" % name,
+                                              dict(kind="reuse", prop=prop, name=name, what="purity")))
+                    break
+    return fails
+
+
+def _same_obj(a, b):
+    if isinstance(a, np.ndarray) or isinstance(b, np.ndarray):
+        a = np.asarray(a); b = np.asarray(b)
+        return a.shape == b.shape and a.dtype == b.dtype and np.array_equal(a, b, equal_nan=(a.dtype.kind == "f"))
+    return a == b
 
 
 def _cmp(a, b, tol=1e-7):
@@ -130,7 +223,10 @@ def _cmp(a, b, tol=1e-7):
                 return r
         return None
     if isinstance(a, dict):
-        return _cmp([a[k] for k in sorted(a)], [b[k] for k in sorted(a)], tol)
+        keys = [k for k in sorted(a) if k != "Eigenvectors"]          # eigenvectors are determined up to sign / rotation in eigenspaces
+        if not isinstance(b, dict) or any(k not in b for k in keys):
+            return "dictionary keys differ"
+        return _cmp([a[k] for k in keys], [b[k] for k in keys], tol)
     a = np.asarray(a); b = np.asarray(b)
     if a.shape != b.shape:
         return "shapes %s / %s" % (a.shape, b.shape)
@@ -143,7 +239,7 @@ def _cmp(a, b, tol=1e-7):
 
 
 def check(prop, stats=None):
-    fails = []
+    fails = purity(prop, stats)
     for k, (name, kind, fn) in enumerate(API.get(prop, [])):
       for mname, move in movers(kind):          # every in-place change (similarities alone would hide scale-invariant caches)
         try:
